@@ -242,6 +242,11 @@ def spell(req, mdl):
         # class/instance without an attribute segment: the simulator documents a default attribute 1 for tag services and
         # ignores what follows; the statement says nothing about such paths -> not judged (model re-synchronised)
         return {'svc': svc, 'path_unspecified': True}
+    elif segs and 'symbolic' in segs[0]:
+        # symbolic segments followed by other well-formed segments (connection point, member, a second element...): the
+        # simulator documents (device.resolve) that segments after the resolved tag are ignored; the statement says nothing
+        # about such paths, and the request is structurally complete and well formed -> not judged (model re-synchronised)
+        return {'svc': svc, 'path_unspecified': True}
     else:
         return {'svc': svc, 'unknown': True}
     op['elem'] = elem
